@@ -23,7 +23,7 @@ func randCase(r *core.Rng, s string) string {
 }
 
 func c16Scalar(r *core.Rng) any {
-	switch r.Intn(24) {
+	switch r.Intn(26) {
 	case 0:
 		return nil
 	case 1:
@@ -66,6 +66,10 @@ func c16Scalar(r *core.Rng) any {
 		return (*stackage.ComparisonOperator)(nil) // a typed nil pointer that satisfies the Operator interface
 	case 20:
 		return (*UserOp)(nil)
+	case 21:
+		return (*stackage.Condition)(nil)
+	case 22:
+		return (*ACond)(nil)
 	}
 	return fmt.Sprintf("junk%d", r.Intn(50))
 }
@@ -270,6 +274,20 @@ func c16Run(c *core.Ctx, idx int) {
 		}
 		eff := stripEnvelopes(in)
 		if mode >= 2 {
+			if err == nil && recv.Len() == before+1 {
+				// the new element is the decoded, initialised Stack or Condition
+				ne, _ := recv.Index(before)
+				okNew := false
+				if ds, isS := stackage.ConvertStack(ne); isS && ds.IsInit() {
+					okNew = true
+				} else if dc, isC := stackage.ConvertCondition(ne); isC && dc.IsInit() {
+					okNew = true
+				}
+				if !okNew {
+					c.Violatef("live-receiver-element", desc, "a successful Marshal into a live receiver stored %s, not a decoded Stack or Condition: %s", Show(ne), shown)
+					return
+				}
+			}
 			if err == nil && recv.Len() != before+1 {
 				c.Violatef("live-receiver-growth", desc, "live receiver went from %d to %d elements on a successful Marshal of %s", before, recv.Len(), shown)
 				return
@@ -290,11 +308,19 @@ func c16Run(c *core.Ctx, idx int) {
 						c.Violatef("label-not-honoured", desc, "label %q gave a %s of %d elements (expected %s of %d): %s", lab, recv.Kind(), recv.Len(), up, len(eff)-1, shown)
 						return
 					}
+					if d := c16Entries(recv, eff[1:]); d != "" {
+						c.Violatef("entries-misplaced", desc, "%s; input %s", d, shown)
+						return
+					}
 					c.Count("label-honoured")
 				case "CONDITION":
 				default:
 					if recv.Kind() != "BASIC" || recv.Len() != len(eff) {
 						c.Violatef("unrecognised-label", desc, "unrecognised first element %q gave a %s of %d elements (expected BASIC of %d): %s", lab, recv.Kind(), recv.Len(), len(eff), shown)
+						return
+					}
+					if d := c16Entries(recv, eff); d != "" {
+						c.Violatef("entries-misplaced", desc, "%s; input %s", d, shown)
 						return
 					}
 					c.Count("unrecognised-label-basic")
@@ -309,6 +335,31 @@ func c16Run(c *core.Ctx, idx int) {
 	if c.WantSample() && malformed && idx%977 == 3 {
 		c.Sample(shown)
 	}
+}
+
+// c16Entries: every entry that is not a nested []any must sit, unchanged, at its own position; a nested []any is
+// either decoded in place (Stack / Condition) or left as it was.
+func c16Entries(recv stackage.Stack, want []any) string {
+	sn, _ := stackage.VerifDump(recv)
+	if len(sn.Slots) != len(want) {
+		return fmt.Sprintf("%d slots for %d entries", len(sn.Slots), len(want))
+	}
+	for i, w := range want {
+		g := sn.Slots[i]
+		if _, nested := w.([]any); nested {
+			_, isS := stackage.ConvertStack(g)
+			_, isC := stackage.ConvertCondition(g)
+			_, raw := g.([]any)
+			if !isS && !isC && !raw {
+				return fmt.Sprintf("position %d holds %s where a nested row was given", i, Show(g))
+			}
+			continue
+		}
+		if !SameValue(g, w) {
+			return fmt.Sprintf("position %d holds %s, the input has %s there", i, Show(g), Show(w))
+		}
+	}
+	return ""
 }
 
 func mutateJunk(r *core.Rng, u []any) []any {
